@@ -432,7 +432,7 @@ func runC20(c *Ctx) {
 					c.Count("extract-labels")
 					// through FHIRPath evaluation where no choice-typed step is involved
 					// (`reference` of a Reference is a oneof too: FHIRPath synthesises the string, see C02)
-					if okk && !hasChoiceStep(label, elems[i]) && !strings.HasSuffix(label, ".reference") && c.rng.Intn(4) == 0 {
+					if okk && !hasChoiceStep(label, elems[i]) && !strings.HasSuffix(label, ".reference") && (c.rng.Intn(4) == 0 || strings.Contains(label, "Date") || strings.Contains(label, "date") || strings.Contains(label, "issued") || strings.Contains(label, "ime") || strings.Contains(label, "instant") || strings.Contains(label, "lastUpdated")) {
 						o := compileEval(label, []fhir.Resource{res})
 						c.Count("extract-evaluated")
 						if o.Err == nil && !o.Panicked {
@@ -440,6 +440,7 @@ func runC20(c *Ctx) {
 							c.Law(same, "C20/extract-evaluate", "evaluating the label yields that very element", label, fmt.Sprintf("%d items", len(o.Coll)))
 						} else {
 							c.Count("extract-eval-error")
+							c.Law(false, "C20/extract-evaluate", "evaluating the label yields that very element", label, "evaluation fails: "+fmt.Sprint(o.Err, o.PanicMsg))
 						}
 					}
 				}
